@@ -71,7 +71,9 @@ pub fn vary_field(base: &VoiceSpec, field: &str, pick: usize) -> Option<VoiceSpe
     match field {
         "none" => {}
         "sampling-rate" => v.sampling_frequency = if base.sampling_frequency == 16000 { 22050 } else { 16000 },
-        "frame-period" => v.frame_period = base.frame_period + 1 + pick % 3,
+        // (one variant in three: the degenerate value 0 - a header value like any other as far as
+        // "do the two voices agree" is concerned)
+        "frame-period" => v.frame_period = if pick % 3 == 2 { 0 } else { base.frame_period + 1 + pick % 3 },
         "gv-off-context" => v.gv_off_context.push("*-xx+*".into()),
         "fullcontext-version" => v.fullcontext_version = if base.fullcontext_version == "1.1" { "1.2".into() } else { "1.1".into() },
         "option" if pick % 3 == 1 => {
